@@ -764,7 +764,9 @@ Section Eval.
                        do s1 <- write_name x nv s; Ok (VLong z, s1)
           | _ => stuck "postfix"
           end
-      | EAssign x a => do (v, s1) <- ev s a; do s2 <- write_name x v s1; Ok (v, s2)
+      | EAssign x a =>
+          (* the value of an assignment expression is the value stored (an int assigned to a long is a long) *)
+          do (v, s1) <- ev s a; do s2 <- write_name x v s1; do w <- read_name x s2; Ok (w, s2)
       | ENew c args =>
           match cls c with
           | None => stuck "unknown class"
